@@ -552,6 +552,19 @@ def gen_setops(rng, tier):
                 if ci % 7 == 3: ops += [[4, 3, 0, 0, 0], [14, 3], [1, 0, 15, lg_max, 0], [6, 0, 3, 0, 0], [14, 0]]
             ops += [[15, 0], [99]]
             cases.append(dict(id='vshllunion_%d_%s' % (lg_max, gname), ops=ops, kind=15, tags=['hll_union', 'gadget:' + gname]))
+    # cpc_union whose empty accumulator adopts a sparse sketch of equal lg_k living in ANOTHER arena (registers 0 and 1 use different
+    # arenas), by copy and by move; the accumulator object is then released when the union graduates to a bit matrix, is down-sampled,
+    # copied / assigned, or destroyed: each block must go back to the allocator it came from
+    for mv in (0, 1):
+        for nxt in ('graduate', 'reduce', 'copy', 'destroy'):
+            ops = [[1, 0, 16, 10, 0], [1, 1, 8, 10, 0], [21, 1, 1, rng.choice([3, 60]), 7919, 3, 0]]
+            ops += [[8, 0, 1, 0, 0]] if mv else [[7, 0, 1], [14, 1], [10, 1]]
+            ops += [[14, 0]]
+            if nxt == 'graduate': ops += [[1, 1, 8, 10, 0], [21, 1, 98, 3000, 7919, 3, 0], [7, 0, 1], [14, 0], [14, 1]]
+            elif nxt == 'reduce': ops += [[1, 1, 8, 4, 0], [21, 1, 98, 60, 7919, 3, 0], [7, 0, 1], [14, 0], [14, 1]]
+            elif nxt == 'copy': ops += [[3, 2, 0], [14, 2], [1, 3, 16, 11, 0], [5, 3, 0], [14, 3], [6, 3, 2, 1, 0], [14, 3], [14, 2], [4, 4, 3, 0, 0], [14, 4]]
+            ops += [[18, 5, 0], [14, 5], [99]]
+            cases.append(dict(id='vscpcadopt_%s_%s' % ('move' if mv else 'copy', nxt), ops=ops, kind=16, tags=['cpc_union', 'adopt-foreign-arena', 'then:' + nxt]))
     # cpc / theta / tuple set operations: grow through several sources, take the result, keep going
     for kind, src, params, sp in ((16, 8, [[10, 0], [4, 0]], [[10, 0], [8, 0], [4, 0], [11, 0]]),
                                   (17, 9, [[5, 0], [9, 2]], [[5, 1], [9, 0], [12, 3]]),
@@ -689,7 +702,17 @@ def oracle_vsem(case, irecs, mrecs):
             other = v & ~(1 | 2 | 4 | 256)
             if other == 0: return 'var_opt_union_result_item_lifetime'
             return flag_sig(other) + '_' + kind
+        if kind == 'cpc_union' and v == 64 and cpc_adopts:
+            # the union took a sparse sketch of equal lg_k from another arena into its empty accumulator (snowplow shortcut of internal_update):
+            # one root cause (fixes/19_cpc_union_adopt_foreign_allocator); any other foreign-arena release keeps the generic signature
+            return 'cpc_union_adopt_foreign_allocator'
         return flag_sig(v) + '_' + kind
+    # cpc_union: a by-reference / by-move update of a union register from a cpc_sketch register of another arena (arena = 1 + register % 3)
+    kinds_ = {}
+    cpc_adopts = False
+    for op in case['ops']:
+        if op[0] == 1: kinds_[op[1]] = op[2]
+        if op[0] in (7, 8) and kinds_.get(op[1]) == 16 and kinds_.get(op[2]) == 8 and op[1] % 3 != op[2] % 3: cpc_adopts = True
     for i, op in enumerate(case['ops']):
         if i >= len(irecs): break
         R = irecs[i]['R']; F = irecs[i].get('F') or [0, 0]
